@@ -184,6 +184,8 @@ PROPS["C04"] = dict(
         dict(module="MC_Lookup", cfg="MC_Lookup_quick.cfg", tiers=("quick",), workers=8),
         dict(module="MC_Lookup", cfg="MC_Lookup_thorough.cfg", tiers=("thorough",), workers=14, timeout=3400, heap="24g"),
     ],
+    proofs=[dict(file="proofs/PosOrder.tla",
+                 claim="the order on generated positions used by every lookup is a total preorder with PosLt as its strict part, and the greatest position not after a query is unique (unbounded, TLAPS/SMT)")],
     trace="Trace_Map",
     drive=dict(quick=dict(n=300, size=4), thorough=dict(n=6000, size=12)),
     nontrivial=lambda e: e["out"].get("k") == "ok" and ((e["op"] == "lookups" and len(e["args"]["toks"]) >= 2) or (e["op"] == "ordering" and len(e["out"]["toks"]) >= 2)),
